@@ -136,7 +136,9 @@ def check(run: Run) -> None:
 def _spec_equal(run, ctx, m, impl: FuncInfo, src: str, module: str, cls, rule: str) -> None:
     spec = spec_function(m, src, module, cls)
     want = canon(ctx_no_opaque(ctx, m, impl.name).analysis(spec).return_term(), spec.pos_params)
-    got = canon(ctx_no_opaque(ctx, m, impl.name).analysis(impl).return_term(), impl.pos_params)
+    from ..terms import splice_literals as _splice
+
+    got = canon(_splice(ctx_no_opaque(ctx, m, impl.name).analysis(impl).return_term()), impl.pos_params)
     from ..fusion import _first_diff, _same_sharing
 
     ok = drop_sites(got) == drop_sites(want) and _same_sharing(got, want)
@@ -710,7 +712,15 @@ def _check_stack_methods(run: Run, ctx, m, st) -> None:
     ok = False
     if len(stores) == 1:
         tg = stores[0].targets[0]
-        ok = strip_sites(fd.term_of(tg.value)) == ("index", ("attr", ("param", define.pos_params[0]), FR), -1) and strip_sites(fd.term_of(tg.slice)) == ("param", define.pos_params[1]) and strip_sites(fd.term_of(stores[0].value)) == ("param", define.pos_params[2])
+        tv_ = strip_sites(fd.term_of(tg.value))
+        if tv_[0] == "attr" and tv_[1] == ("param", define.pos_params[0]) and define.cls is not None:
+            # self._current_frame with a property that is `return self.<frames>[-1]`
+            pm_ = m.find_method(define.cls, tv_[2])
+            if pm_ is not None and pm_.is_property and len(pm_.pos_params) == 1:
+                from ..terms import subst as _subst
+
+                tv_ = _subst(strip_sites(ctx.analysis(pm_).return_term()), {("param", pm_.pos_params[0]): ("param", define.pos_params[0])})
+        ok = tv_ == ("index", ("attr", ("param", define.pos_params[0]), FR), -1) and strip_sites(fd.term_of(tg.slice)) == ("param", define.pos_params[1]) and strip_sites(fd.term_of(stores[0].value)) == ("param", define.pos_params[2])
     if ok:
         ok = fd.cfg.postdominates(fd.cfg.node_of(stores[0]), fd.cfg.entry)
     run.check(ok, "C02.R3b", define, define.node, "define_name writes frames[-1][name] = val, unconditionally", "define_name does not (always) define the name in the innermost frame: a definition that is skipped for some values (e.g. a name bound to itself) no longer shadows an outer binding of the same name")
